@@ -562,6 +562,48 @@ func c10Listing(u *vfUnit) {
 			sess.Close()
 		}
 	}
+	// a lister that has nothing to say (0 entries, io.EOF) behind every request kind that uses one, with handlers
+	// that lack the optional Lstat/RealPath/Readlink interfaces: the answer is "no such file" (end of list for READDIR)
+	{
+		st := vfNewStore()
+		st.Put("/f", []byte("x"))
+		st.Mkdir("/d")
+		empty := false
+		st.ListAtErr = func(p string) error {
+			if empty {
+				return io.EOF
+			}
+			return nil
+		}
+		rs, err := vfRawConnect(vfSrvCfg{Kind: vfRS, H: st.Handlers(vfHandlerOpt{OpenFile: true})}, vfPipeOpts{}, true)
+		if err != nil {
+			u.Inconclusive("connect: %v", err)
+			return
+		}
+		hr, _ := rs.R.Phase(60*time.Second, vfPkt{Type: rfOpen, ID: 1, Path: "/f", Pflags: rfRead_}, vfPkt{Type: rfOpendir, ID: 2, Path: "/d"})
+		empty = true
+		if len(hr) == 2 && hr[0].Type == rfHandle && hr[1].Type == rfHandle {
+			for i, q := range []vfPkt{{Type: rfReadlink, Path: "/f"}, {Type: rfStat, Path: "/f"}, {Type: rfLstat, Path: "/f"}, {Type: rfFstat, Handle: hr[0].Handle}, {Type: rfReaddir, Handle: hr[1].Handle}, {Type: rfRealpath, Path: "/f"}} {
+				q.ID = uint32(10 + i)
+				r, err := rs.R.Phase(60*time.Second, q)
+				u.Count("empty_lister_requests", 1)
+				want := uint32(rfNoSuchFile)
+				if q.Type == rfReaddir {
+					want = rfEOF
+				}
+				if q.Type == rfRealpath {
+					continue // answered without a lister
+				}
+				if err != nil || len(r) != 1 || r[0].Type != rfStatus || r[0].Code != want {
+					u.Violation("backward-empty-lister:"+rfTypeName(q.Type), fmt.Sprintf("%s with a lister that returns (0, io.EOF) answered %v %v, expected STATUS %d", q, r, err, want), nil)
+				}
+			}
+		}
+		empty = false
+		if msg := rs.End(60 * time.Second); msg != "" {
+			u.Violation("serve-end", msg, nil)
+		}
+	}
 	// attributes as given: owner from the callbacks (over a Stat_t of another owner) together with extended attributes
 	l := &c10ShortLister{per: 10, ents: []os.FileInfo{c10OwnedInfo{c10Info{"both", 77}, 5001, 5002}}}
 	sess, err := vfConnect(vfSrvCfg{Kind: vfRS, H: Handlers{FileList: c10ListHandler{l}}}, vfPipeOpts{})
